@@ -10,13 +10,14 @@
 EXTENDS ReVM
 
 CONSTANTS GuardPerSync, MaxLen, Deep,
+          WithAny,           \* include . (REPEAT_ANY for .? and .{n,m})
           UnboundedBrace     \* include e{n,}: with the keyed guard an empty body is iterated RE_MAX_RANGE times per position
 
 VARIABLE case
 
 La == [t |-> "lit", b |-> 97]
 Lb == [t |-> "lit", b |-> 98]
-A0 == {La, Lb}
+A0 == {La, Lb} \cup (IF WithAny THEN {[t |-> "any"]} ELSE {})
 Rp(x, lo, hi, lz, br) == [t |-> "rep", x |-> x, lo |-> lo, hi |-> hi, lz |-> lz, brace |-> br]
 Cat2(x, y) == [t |-> "cat", xs |-> <<x, y>>]
 Alt2(x, y) == [t |-> "alt", xs |-> <<x, y>>]
